@@ -44,18 +44,32 @@ class Coord:
 # oracles
 
 def lookup_oracle(policy, q, T):
-    """brute force over exact rationals; T strictly increasing"""
+    """over exact rationals; T strictly increasing.  Short lists: plain scan (the definition itself).  Long lists: the same
+    answer by bisection on the exact values, cross-checked against the scan on the neighbouring samples."""
+    if len(T) <= 64:
+        return _lookup_scan(policy, q, T, range(len(T)))
+    import bisect
+    k = bisect.bisect_left(T, q)                  # T[k-1] < q <= T[k]
+    window = range(max(0, k - 2), min(len(T), k + 2))
+    if policy == "infeq" and k >= len(T):
+        return len(T) - 1
+    if policy == "supeq" and k >= len(T):
+        return None
+    return _lookup_scan(policy, q, T, window)
+
+
+def _lookup_scan(policy, q, T, idxs):
     if policy == "closest":
         best = None
-        for i, t in enumerate(T):
-            d = abs(q - t)
+        for i in idxs:
+            d = abs(q - T[i])
             if best is None or d < best[0]:      # strict: a tie keeps the earlier sample
                 best = (d, i)
         return best[1]
     if policy == "infeq":
-        c = [i for i, t in enumerate(T) if t <= q]
+        c = [i for i in idxs if T[i] <= q]
         return max(c) if c else None
-    c = [i for i, t in enumerate(T) if t >= q]
+    c = [i for i in idxs if T[i] >= q]
     return min(c) if c else None
 
 
@@ -372,8 +386,14 @@ def check_lookup(st, tr, tm, r, cx, samples=None):
     mids = [(a + b) / 2 for a, b in zip(T, T[1:])]
     lattice = tm["lattice"]
 
+    import bisect
+    mids_set, T_set = set(mids), set(T)
+    t_units = tr.t.units          # (read once: the accessor hands out a copy of the whole time array)
+
     def near(q, bnds):
-        return any(abs(q - b) <= REL * max(abs(q), abs(b)) for b in bnds)
+        # bnds is sorted: only its members next to q can be within the relative distance
+        k = bisect.bisect_left(bnds, q)
+        return any(abs(q - b) <= REL * max(abs(q), abs(b)) for b in bnds[max(0, k - 2):k + 2])
 
     def on_lattice(q):
         return lattice is not None and (q / lattice).denominator == 1 and abs(q / lattice) < 2 ** 45
@@ -404,7 +424,7 @@ def check_lookup(st, tr, tm, r, cx, samples=None):
                     a = st.UnitValue(v2, st.Units(st.UnitsSystem(**si.sys_dict(s3)), st.UnitsDimensions(*T_DIM)))
                 # what the library's own conversion makes of it (units.py is C06's subject, not C17's)
                 try:
-                    qlib = float(st.UnitValue(v2, u2).convert(tr.t.units).value)
+                    qlib = float(st.UnitValue(v2, u2).convert(t_units).value)
                 except Exception:
                     qlib = None
                 if qlib is None or not math.isfinite(qlib) or abs(Fr(qlib) - q) > CONV_REL * abs(q):
@@ -439,9 +459,9 @@ def check_lookup(st, tr, tm, r, cx, samples=None):
                 cx.count("lookup_form_" + {"number": "number", "str": "str"}.get(form, "unitvalue"))
                 if want is None:
                     cx.count("lookup_none_expected")
-                if pol == "closest" and q in mids:
+                if pol == "closest" and q in mids_set:
                     cx.count("lookup_exact_ties")
-                if pol != "closest" and q in T:
+                if pol != "closest" and q in T_set:
                     cx.count("lookup_on_sample")
                 if isnear and form != "number":
                     cx.count("lookup_converted_on_boundary")
@@ -737,19 +757,19 @@ def run_wide(case):
 
 
 def run_long(case):
-    """trajectories of 1024 / 1025 / 1600 / 5000 samples (a look-up that switches to bisection beyond some length must still
-    answer like the scan): the three policies around the first, the last and ~40 other samples, in all query forms"""
+    """trajectories of 1024 .. 2049 samples (a look-up that switches to bisection beyond some length must still
+    answer like the scan): the three policies around the first, the last, samples 1023 / 1024 and a few others, in all query forms"""
     use_repo()
     import numpy as np
     import strengths as st
     sd, idx = case["seed"], case["idx"]
     r = gen.rng_for(sd, "C17long", idx)
     cx = Ctx({k: case[k] for k in ("kind", "seed", "idx")})
-    N = [1024, 1025, 1600, 5000, 257, 4097][idx % 6]
+    N = [1025, 1100, 1600, 1030, 2049, 1024][idx % 6]      # (the library's look-up costs ~0.1 ms per sample and query: sizes kept moderate)
     net = st.RDNetwork([st.Species("A", density=0)], [])
     system = st.RDSystem(net, st.RDGridSpace(w=1, h=1, d=1))
     tm = gen_times(r, N, "grid" if idx % 2 == 0 else "float")
-    tm["only_samples"] = {0, 1, 2, N - 1, N - 2, 1023 % N, 1024 % N, 1025 % N, 255, 256} | {r.randrange(N) for _ in range(30)}
+    tm["only_samples"] = {0, N - 1, 1023 % N, 1024 % N, 256} | {r.randrange(N) for _ in range(3)}
     tsys = (r.choice(list(si.SPACE)), tm["unit"], r.choice(list(si.QUANTITY)))
     tunits, twant = make_units(st, r, tsys, T_DIM, tm["unit"])
     tr = st.RDTrajectory(data=st.UnitArray(np.arange(N, dtype=float), "molecule"), t_sample=st.UnitArray([float(t) for t in tm["T"]], tunits), system=system)
@@ -829,7 +849,7 @@ def main():
         cases.append({"kind": "sim", "seed": sd, "idx": i})
     for i in range(400 if thorough else 60):
         cases.append({"kind": "wide", "seed": sd, "idx": i})
-    for i in range(60 if thorough else 12):
+    for i in range(48 if thorough else 8):
         cases.append({"kind": "long", "seed": sd, "idx": i})
     # heavy first so that the round-robin shares are balanced
     order = sorted(range(len(cases)), key=lambda k: -(cases[k].get("N", 3) * cases[k].get("S", 2) * cases[k].get("C", 3)))
